@@ -209,6 +209,18 @@ def check(ctx):
         first = next(i for i, c in enumerate(conf) if not c[0])
         ctx.note("spec-drift property=C05 traces=%d first_rejected_at_line=%d/%d" %
                  (len(conf) - accepted, conf[first][1], conf[first][2]))
+    sim_consts = {"Inputs": '{[op |-> "rx", src |-> a, mc |-> m, reboot |-> r, uc |-> TRUE, es |-> <<[ty |-> "offer", svc |-> v, ttl |-> t]>>] '
+                            ': a \\in {"a1", "a2"}, m \\in {TRUE}, v \\in {"s1", "s2"}, t \\in {0, 1, 2, 16777215}, r \\in BOOLEAN} '
+                            '\\cup {[op |-> o, lst |-> l, flt |-> f] : o \\in {"watch", "unwatch"}, l \\in {"L2", "L3"}, f \\in {"F2", "ALL"}} '
+                            '\\cup {[op |-> "connlost"]}',
+                  "Match": tlc.to_tla({k: set(v) for k, v in sdenv.match_table(FLTS, SVCS).items()}),
+                  "Cfg": '[watch0 |-> [L1 |-> {"ALL"}, L2 |-> {}, L3 |-> {}]] @@ CfgDefault', "Sw": "AllOff",
+                  "MaxEv": 8, "MaxIdle": 4, "MaxPerPoll": 2}
+
+    def replay_sim(sched):
+        return run_schedule([{"t": 0, "j": 0, "op": "watch", "lst": "L1", "flt": "ALL", "pre": True}] + sched)
+    from .common import spec_to_code
+    cov.update(spec_to_code(ctx, sim_consts, ctx.pick(25, 500), 100, replay_sim, "Mon_C05", mon_cfg()))
     cov.update(states=states, transitions=trans, traces_validated_against_impl=accepted,
                monitor_traces=len(traces), monitor_failures=bad, monitor_states=mstates,
                conformance_traces=len(conf), spec_drift=len(conf) - accepted, tlc_runs=runs,
